@@ -284,6 +284,7 @@ type copyState struct {
 	ev       int
 	peer     string
 	process  int
+	checks   int
 	released int
 }
 
@@ -314,6 +315,14 @@ type runner struct {
 	log         []logEntry
 	viol        string
 
+	// noReleased: the buffer is built WITHOUT a Released callback (Callback.Released == nil, which the
+	// buffer supports). The release-accounting clauses cannot be observed then; what a copy "held in the
+	// buffer" means for the classification is taken from IsBuffered() around the PushEvent calls.
+	noReleased bool
+	waitingCp  []int  // noReleased: per event the copy that IsBuffered() showed waiting after its push (-1: none)
+	pushConn   uint32 // events connected (Process returned nil) during the PushEvent in progress, incl. the pushed one
+	connAt     []int  // per event: log position at which it was connected
+
 	// classification
 	waits2          bool // a pushed copy stayed in the buffer with >= 2 parents not connected
 	failWaitingDesc bool // a callback failed for an event that was itself waiting in the buffer (re-checked after a parent) or had a descendant waiting there
@@ -323,8 +332,12 @@ type runner struct {
 	failed          bool
 	dupWaiting      bool // pushed a copy of an event that was waiting in the buffer
 	dupConnected    bool // pushed a copy of a connected event
-	extConnected    bool
-	liveChecked     bool
+	// a callback failed for a copy that was WAITING in the buffer and completed inside a nested cascade: at least two of
+	// its parents were connected during the PushEvent in progress and the one connected last descends from another one
+	// (so the cascade of the earlier parent is still walking its snapshot of waiting events when the copy fails)
+	failNested   bool
+	extConnected bool
+	liveChecked  bool
 }
 
 func (r *runner) violate(format string, a ...interface{}) {
@@ -333,7 +346,41 @@ func (r *runner) violate(format string, a ...interface{}) {
 	}
 }
 
-func (r *runner) held(cp int) bool { return r.copies[cp].released == 0 }
+func (r *runner) held(cp int) bool {
+	if r.noReleased {
+		// without a Released callback: the copy IsBuffered() showed waiting after its push, until the buffer
+		// no longer lists its event (checked lazily, callbacks and the driver call this between buffer steps)
+		ev := r.copies[cp].ev
+		return r.waitingCp[ev] == cp && r.buf.IsBuffered(r.w.base[ev].ID())
+	}
+	return r.copies[cp].released == 0
+}
+
+// noteFailure classifies a failed Check/Process of copy cp (event ev)
+func (r *runner) noteFailure(cp, ev int) {
+	r.failed = true
+	if cp != r.curPush || r.heldDescendant(ev) {
+		r.failWaitingDesc = true
+	}
+	if cp == r.curPush {
+		return
+	}
+	// parents connected during this PushEvent, in connection order
+	var last, lastAt = -1, -1
+	for _, p := range r.w.specs[ev].Parents {
+		if r.pushConn&(1<<uint(p)) != 0 && r.connAt[p] > lastAt {
+			last, lastAt = p, r.connAt[p]
+		}
+	}
+	if last < 0 {
+		return
+	}
+	for _, p := range r.w.specs[ev].Parents {
+		if p != last && r.pushConn&(1<<uint(p)) != 0 && r.w.desc[p]&(1<<uint(last)) != 0 {
+			r.failNested = true
+		}
+	}
+}
 
 // heldDescendant reports whether a copy of a strict descendant of ev waits in the buffer
 func (r *runner) heldDescendant(ev int) bool {
@@ -346,6 +393,14 @@ func (r *runner) heldDescendant(ev int) bool {
 }
 
 func (r *runner) callbacks() dagordering.Callback {
+	cb := r.callbacksWithReleased()
+	if r.noReleased {
+		cb.Released = nil
+	}
+	return cb
+}
+
+func (r *runner) callbacksWithReleased() dagordering.Callback {
 	w := r.w
 	return dagordering.Callback{
 		Exists: func(id hash.Event) bool {
@@ -373,11 +428,17 @@ func (r *runner) callbacks() dagordering.Callback {
 				}
 			}
 			r.log = append(r.log, logEntry{"Check", c.cp, ev, err})
+			cs := &r.copies[c.cp]
+			cs.checks++
+			// Check is the first step of handing a copy to processing (processCompleteEvent: validate, then process)
+			if cs.checks > 1 {
+				r.violate("copy %s of e%d was handed to processing (Check) %d times", cs.peer, ev, cs.checks)
+			}
+			if cs.released > 0 {
+				r.violate("copy %s of e%d was handed to processing (Check) after it was reported released", cs.peer, ev)
+			}
 			if err != nil {
-				r.failed = true
-				if c.cp != r.curPush || r.heldDescendant(ev) {
-					r.failWaitingDesc = true
-				}
+				r.noteFailure(c.cp, ev)
 			}
 			return err
 		},
@@ -413,14 +474,13 @@ func (r *runner) callbacks() dagordering.Callback {
 				}
 			}
 			if err != nil {
-				r.failed = true
-				if c.cp != r.curPush || r.heldDescendant(ev) {
-					r.failWaitingDesc = true
-				}
+				r.noteFailure(c.cp, ev)
 				return err
 			}
 			r.connected |= 1 << uint(ev)
 			r.connectedAs[ev] = e
+			r.pushConn |= 1 << uint(ev)
+			r.connAt[ev] = len(r.log)
 			return nil
 		},
 		Released: func(e dag.Event, peer string, err error) {
@@ -449,7 +509,12 @@ func (r *runner) callbacks() dagordering.Callback {
 // fails, nothing connected from outside): after every operation exactly the events the model
 // connects are processed, each exactly once.
 func run(w *world, ops []op, limit dag.Metric, live *modelOut) *runner {
-	return runWith(nil, w, ops, limit, live)
+	return runWith(nil, w, ops, limit, live, false)
+}
+
+// runNoReleased is run() against a buffer built without a Released callback
+func runNoReleased(w *world, ops []op, limit dag.Metric, live *modelOut) *runner {
+	return runWith(nil, w, ops, limit, live, true)
 }
 
 var peerNames = func() []string {
@@ -461,21 +526,25 @@ var peerNames = func() []string {
 }()
 
 // runWith is run() re-using the memory of a previous runner (the all-orders loops run millions of histories)
-func runWith(prev *runner, w *world, ops []op, limit dag.Metric, live *modelOut) *runner {
+func runWith(prev *runner, w *world, ops []op, limit dag.Metric, live *modelOut, noReleased bool) *runner {
 	n := len(w.specs)
 	var r *runner
 	if prev != nil && prev.w == w && cap(prev.copies) >= len(ops) {
 		r = prev
-		cas, ct, pt, pc, cps, lg := r.connectedAs, r.checkTries, r.procTries, r.procCalls, r.copies[:0], r.log[:0]
+		cas, ct, pt, pc, cps, lg, wc, ca := r.connectedAs, r.checkTries, r.procTries, r.procCalls, r.copies[:0], r.log[:0], r.waitingCp, r.connAt
 		for i := 0; i < n; i++ {
-			cas[i], ct[i], pt[i], pc[i] = nil, 0, 0, 0
+			cas[i], ct[i], pt[i], pc[i], wc[i], ca[i] = nil, 0, 0, 0, -1, -1
 		}
-		*r = runner{w: w, ops: ops, limit: limit, connectedAs: cas, checkTries: ct, procTries: pt, procCalls: pc, copies: cps, log: lg}
+		*r = runner{w: w, ops: ops, limit: limit, connectedAs: cas, checkTries: ct, procTries: pt, procCalls: pc, copies: cps, log: lg, waitingCp: wc, connAt: ca}
 	} else {
 		r = &runner{w: w, ops: ops, limit: limit,
 			connectedAs: make([]dag.Event, n), checkTries: make([]int, n), procTries: make([]int, n), procCalls: make([]int, n),
-			copies: make([]copyState, 0, len(ops)), log: make([]logEntry, 0, 6*len(ops)+4)}
+			copies: make([]copyState, 0, len(ops)), log: make([]logEntry, 0, 6*len(ops)+4), waitingCp: make([]int, n), connAt: make([]int, n)}
+		for i := 0; i < n; i++ {
+			r.waitingCp[i], r.connAt[i] = -1, -1
+		}
 	}
+	r.noReleased = noReleased
 	r.buf = dagordering.New(limit, r.callbacks())
 	r.liveChecked = live != nil
 	for k, o := range ops {
@@ -496,7 +565,37 @@ func runWith(prev *runner, w *world, ops []op, limit dag.Metric, live *modelOut)
 			r.copies = append(r.copies, copyState{ev: o.Ev, peer: peer})
 			r.log = append(r.log, logEntry{"PUSH", cp, o.Ev, nil})
 			r.curPush = cp
+			r.pushConn = 0
+			wasBuffered := noReleased && r.buf.IsBuffered(w.base[o.Ev].ID())
+			var before uint32 // noReleased: events waiting before the push
+			if noReleased {
+				for i := range w.specs {
+					if r.waitingCp[i] >= 0 && r.held(r.waitingCp[i]) {
+						before |= 1 << uint(i)
+					}
+				}
+			}
+			logAt := len(r.log)
 			r.buf.PushEvent(&copyEv{TestEvent: w.base[o.Ev], cp: cp, size: w.specs[o.Ev].Size}, peer)
+			if noReleased {
+				if !wasBuffered && r.buf.IsBuffered(w.base[o.Ev].ID()) {
+					r.waitingCp[o.Ev] = cp // this copy waits (a copy pushed while its event waits is dropped as a duplicate)
+				}
+				// classification only: a waiting copy that left the buffer without any callback was spilled
+				for _, l := range r.log[logAt:] {
+					if l.ev >= 0 {
+						before &^= 1 << uint(l.ev)
+					}
+				}
+				for i := range w.specs {
+					if before&(1<<uint(i)) != 0 && !r.buf.IsBuffered(w.base[i].ID()) {
+						r.spilled = true
+					}
+				}
+				if !wasBuffered && r.connected&bit == 0 && len(r.log) == logAt && !r.buf.IsBuffered(w.base[o.Ev].ID()) {
+					r.spilled = true // the pushed copy itself
+				}
+			}
 			// limits after every push: what the buffer reports and what it really still holds
 			// (pushed copies not yet reported released)
 			tot := r.buf.Total()
@@ -506,16 +605,19 @@ func runWith(prev *runner, w *world, ops []op, limit dag.Metric, live *modelOut)
 			var hn idx.Event
 			var hs uint64
 			for c2 := range r.copies {
-				if r.held(c2) {
+				if !noReleased && r.held(c2) {
 					hn++
 					hs += uint64(w.specs[r.copies[c2].ev].Size)
 				}
 			}
-			if hn > limit.Num || hs > limit.Size {
-				r.violate("after push #%d the buffer holds %d unreleased copies / %d bytes, limit %s", k, hn, hs, limit.String())
-			}
-			if tot.Num != hn || tot.Size != hs {
-				r.violate("after push #%d Total() = %s but %d copies / %d bytes are pushed and not released", k, tot.String(), hn, hs)
+			if !noReleased {
+				// (without a Released callback the copies still held cannot be counted independently)
+				if hn > limit.Num || hs > limit.Size {
+					r.violate("after push #%d the buffer holds %d unreleased copies / %d bytes, limit %s", k, hn, hs, limit.String())
+				}
+				if tot.Num != hn || tot.Size != hs {
+					r.violate("after push #%d Total() = %s but %d copies / %d bytes are pushed and not released", k, tot.String(), hn, hs)
+				}
 			}
 			if r.held(cp) {
 				miss := 0
@@ -578,6 +680,9 @@ func runWith(prev *runner, w *world, ops []op, limit dag.Metric, live *modelOut)
 
 func (r *runner) checkAllReleased(when string) {
 	for cp := range r.copies {
+		if r.noReleased {
+			break // no Released callback installed: release accounting is not observable
+		}
 		if r.copies[cp].released != 1 {
 			r.violate("%s copy %s of e%d was reported released %d times", when, r.copies[cp].peer, r.copies[cp].ev, r.copies[cp].released)
 		}
@@ -601,7 +706,11 @@ func (r *runner) describe() string {
 	var b strings.Builder
 	b.WriteString("events:\n")
 	b.WriteString(r.w.describe())
-	fmt.Fprintf(&b, "limit: %s\nhistory:", r.limit.String())
+	fmt.Fprintf(&b, "limit: %s\n", r.limit.String())
+	if r.noReleased {
+		b.WriteString("buffer built WITHOUT a Released callback (Callback.Released == nil)\n")
+	}
+	b.WriteString("history:")
 	for _, o := range r.ops {
 		switch o.Kind {
 		case opPush:
